@@ -693,7 +693,7 @@ func (c *Conn) modWrite() {
 //
 //go:norace
 func (c *Conn) resetRead() {
-	if !c.closed && c.isWAdded {
+	if !c.closed && c.isWAdded && len(c.writeList) == 0 {
 		c.isWAdded = false
 		p := c.p
 		_ = p.resetRead(c.fd)
